@@ -197,7 +197,7 @@ func init() {
 			k.Names = []string{"a"}
 			k.Groups = []string{"g"}
 			k.MaxOps = 24
-			k.PDefer = 5
+			k.PDefer = 20
 			return GenCase(t, scale(k, thorough))
 		},
 		Check: diffRejectedCheck("C06", false, false),
@@ -244,6 +244,7 @@ func init() {
 			// the comparison is purely differential, so keys that are
 			// decorated without having a constructor are in the domain too
 			k.PDecoOrphan = 20
+			k.PCallback = 12 // a callback-bearing function must stay unexecuted too
 			k.POpt = 30
 			k.WDecorate = 5
 			return GenCase(t, scale(k, thorough))
